@@ -122,6 +122,26 @@ func c20HCLPlan(d string) (doc string, run func() string) {
 	}
 }
 
+// c20ModifySet: a ModifyTable that drops a column together with the index and the foreign key on it and adds
+// another column (the planners drop what the column drop implies).
+func c20ModifySet(d string) []schema.Change {
+	ity := map[string]string{"mysql": "int", "postgres": "integer"}[d]
+	s := schema.New("s")
+	p := schema.NewTable("parent").SetSchema(s).AddColumns(schema.NewIntColumn("id", ity))
+	p.SetPrimaryKey(schema.NewPrimaryKey(p.Columns[0]))
+	t := schema.NewTable("users").SetSchema(s)
+	id, nick, spouse := schema.NewIntColumn("id", ity), schema.NewNullIntColumn("nick", ity), schema.NewNullIntColumn("spouse_id", ity)
+	t.AddColumns(id, nick, spouse).SetPrimaryKey(schema.NewPrimaryKey(id))
+	ix := schema.NewIndex("users_spouse").SetTable(t).AddColumns(spouse)
+	ix2 := schema.NewIndex("users_nick").SetTable(t).AddColumns(nick)
+	fk := schema.NewForeignKey("users_spouse_fk").SetTable(t).AddColumns(spouse).SetRefTable(p).AddRefColumns(p.Columns[0])
+	t.AddIndexes(ix, ix2).AddForeignKeys(fk)
+	return []schema.Change{&schema.ModifyTable{T: t, Changes: []schema.Change{
+		&schema.DropIndex{I: ix2}, &schema.DropColumn{C: nick}, &schema.DropForeignKey{F: fk}, &schema.DropIndex{I: ix}, &schema.DropColumn{C: spouse},
+		&schema.AddColumn{C: schema.NewNullIntColumn("name", ity)},
+	}}}
+}
+
 // c20Digest computes every observable of the case as one string.
 func c20Digest(seed uint64) string {
 	var b strings.Builder
@@ -172,6 +192,48 @@ func c20Digest(seed uint64) string {
 	for _, d := range []string{"mysql", "postgres", "sqlite"} {
 		_, run := c20HCLPlan(d)
 		fmt.Fprintf(&b, "%s hcl->plan\n%s", d, run())
+	}
+	// two PostgreSQL realms with the same schema, table and enum names: in one the enum name is shared by both
+	// schemas (references are qualified), in the other it is not; which one is marshalled first depends on the case
+	{
+		mk := func(shared bool) string {
+			app, other := schema.New("app"), schema.New("other")
+			st := &schema.EnumType{T: "state", Values: []string{"on", "off"}, Schema: app}
+			app.AddObjects(st)
+			app.AddTables(schema.NewTable("t").AddColumns(schema.NewColumn("s").SetType(st)))
+			if shared {
+				o := &schema.EnumType{T: "state", Values: []string{"a"}, Schema: other}
+				other.AddObjects(o)
+				other.AddTables(schema.NewTable("t").AddColumns(schema.NewColumn("s").SetType(o)))
+			} else {
+				other.AddTables(schema.NewTable("t").AddColumns(schema.NewIntColumn("s", "integer")))
+			}
+			out, err := postgres.MarshalHCL(schema.NewRealm(app, other))
+			return fmt.Sprintf("err=%v\n%s", err, out)
+		}
+		var sh, un string
+		if seed%2 == 0 {
+			un = mk(false)
+			sh = mk(true)
+		} else {
+			sh = mk(true)
+			un = mk(false)
+		}
+		fmt.Fprintf(&b, "pg realm (enum name not shared)\n%s\npg realm (enum name shared)\n%s\n", un, sh)
+	}
+	// the same change values planned twice
+	for _, d := range []string{"mysql", "postgres"} {
+		cs := c20ModifySet(d)
+		pl, _, _ := plannerOf(d)
+		for k := 0; k < 2; k++ {
+			plan, err := pl.PlanChanges(context.Background(), "p", cs)
+			fmt.Fprintf(&b, "%s replan %d err=%v\n", d, k, err)
+			if err == nil {
+				for _, c := range plan.Changes {
+					b.WriteString(c.Cmd + ";\n")
+				}
+			}
+		}
 	}
 	// directory hash over a map-backed MemDir
 	md := &migrate.MemDir{}
@@ -231,7 +293,7 @@ func runC20(e *Env) error {
 	for i, s := range seeds {
 		ref[i] = c20Digest(s)
 	}
-	e.Res.Rule = fmt.Sprintf("%d cases (schemas of 3-7 tables with several foreign keys to one parent, fks to distinct parents, cycles; a MemDir of 3-8 files); each observable (plan statements + DefaultFormatter file of the 3 planners, MarshalHCL of the 3 dialects, HashFile.MarshalText) produced %dx sequentially, in 16 concurrent goroutines interleaved with unrelated cases (race detector on), in %d fresh processes; aliasing check (results re-read after later calls); HCL block order permuted (sqlite); permuted directory listings vs the Lean model; non-trivial = digest longer than 200 bytes; distinct by seed", n, reps, procs)
+	e.Res.Rule = fmt.Sprintf("%d cases (schemas of 3-7 tables with several foreign keys to one parent, fks to distinct parents, cycles; a MemDir of 3-8 files); each observable (plan statements + DefaultFormatter file of the 3 planners, MarshalHCL of the 3 dialects, HashFile.MarshalText) produced %dx sequentially, in 16 concurrent goroutines interleaved with unrelated cases (race detector on), in %d fresh processes (every other one working through the cases in the opposite order); the same change values planned three times; aliasing check (results re-read after later calls); HCL block order permuted (sqlite); permuted directory listings vs the Lean model; non-trivial = digest longer than 200 bytes; distinct by seed", n, reps, procs)
 	for i, s := range seeds {
 		for k := 0; k < reps; k++ {
 			d := c20Digest(s)
@@ -290,6 +352,29 @@ func runC20(e *Env) error {
 			}
 		}
 	}
+	// planning the same change values again gives the same statements (the planner does not edit its input)
+	for _, d := range []string{"mysql", "postgres"} {
+		cs := c20ModifySet(d)
+		pl, _, _ := plannerOf(d)
+		var first string
+		for k := 0; k < 3; k++ {
+			plan, err := pl.PlanChanges(context.Background(), "p", cs)
+			if err != nil {
+				break
+			}
+			var sb strings.Builder
+			for _, c := range plan.Changes {
+				sb.WriteString(c.Cmd + ";\n")
+			}
+			e.Res.Count(fmt.Sprintf("replan:%s:%d", d, k), true, "replan")
+			if k == 0 {
+				first = sb.String()
+			} else if sb.String() != first {
+				e.Res.Violate("failing-input", "replanning-the-same-changes-differs", fmt.Sprintf("%s: planning the same change set for the %d. time gives other statements: %s", d, k+1, firstDiff(first, sb.String())), "Props.C20 repeated runs", map[string]any{"dialect": d})
+				break
+			}
+		}
+	}
 	// fresh processes
 	self, _ := os.Executable()
 	var sl []string
@@ -298,7 +383,15 @@ func runC20(e *Env) error {
 	}
 	for p := 0; p < procs; p++ {
 		cmd := exec.Command(self, "-model", e.Model, "-out", os.DevNull, "-replays", os.TempDir(), "C20")
-		cmd.Env = append(os.Environ(), "VERIF_C20_CHILD="+strings.Join(sl, ","))
+		// every other child works through the cases in the opposite order: what a case prints must not depend
+		// on what the process did before
+		order := append([]string{}, sl...)
+		if p%2 == 1 {
+			for i, j := 0, len(order)-1; i < j; i, j = i+1, j-1 {
+				order[i], order[j] = order[j], order[i]
+			}
+		}
+		cmd.Env = append(os.Environ(), "VERIF_C20_CHILD="+strings.Join(order, ","))
 		out, err := cmd.Output()
 		if err != nil {
 			e.Res.Note("child process: %v", err)
